@@ -21,7 +21,7 @@ SHARD_TIMEOUT = {"quick": 900, "thorough": 3600}
 def gen_cases(tier, seed):
     rng = gen.rng_for(seed, "c10", tier)
     cases = []
-    budget = {"quick": 150, "thorough": 5000}[tier]
+    budget = {"quick": 300, "thorough": 5000}[tier]
     for name, op in OPS.items():
         g = catalog.grid(name, tier, rng)
         items = []
@@ -44,7 +44,7 @@ def gen_cases(tier, seed):
             vopts = catalog.vclass_options(op, args)
             cases.append({"kind": "tensor", "op": name, "form": form, "shapes": shapes, "args": args, "vclass": vopts[n % len(vopts)],
                           "gother": bool(n % 2), "seed": int(rng.integers(2 ** 31))})
-    for c in nncommon.build_cases(tier, seed, "c10", budget={"quick": 120, "thorough": 3000}[tier]):
+    for c in nncommon.build_cases(tier, seed, "c10", budget={"quick": 240, "thorough": 3000}[tier]):
         c["kind"] = "nn"
         c["gother"] = bool(c["n"] % 2)
         c["mixed"] = bool(c["n"] % 5 == 4)
